@@ -353,6 +353,16 @@ impl RHistory {
                 let obs = self.emit(op);
                 self.check_event(&obs);
             }
+            39 => {
+                // process_local_client moves packets between the two halves without showing them: the packet level
+                // monitors of both endpoints stop here, the comparison with the model goes on
+                let id = v.get(1).and_then(|t| t.as_u64()).unwrap_or(0);
+                let k = v.get(2).and_then(|t| t.as_u64()).unwrap_or(0);
+                self.emit(op);
+                self.mon(Ep::Srv(id)).hostile_in = true;
+                self.mon(Ep::Conn(k)).hostile_in = true;
+                self.feat("process_local_client");
+            }
             28 => {
                 let id = v.get(1).and_then(|t| t.as_u64()).unwrap_or(0);
                 let k = v.get(2).and_then(|t| t.as_u64()).unwrap_or(0);
